@@ -1,14 +1,13 @@
 import BppModel.Hmm
 import BppModel.Simplex
-import BppModel.Matrix
 /-
 Model of src/Bpp/Numeric/Hmm/FullHmmTransitionMatrix.{h,cpp} (+ the data members of
 AbstractHmmTransitionMatrix.h:27-31), generic over `Scalar α`, on top of
  * `Bpp.Simplex` (C19's model of Prob/Simplex.cpp): row `i` of the matrix is the `Simplex`
    `vSimplex_[i]`, built with method 1 ("global ratio"), constraint ]0,1[ (`allowNull = false`);
- * `Bpp.Mx.pow` (C04's model of `MatrixTools::pow(A, size_t p, O)`, MatrixTools.h:484-514 — the
-   integer overload is the one selected for the call `pow(pij_, 256, tmpmat_)`): the equilibrium
-   vector is row 0 of `P^256`.
+ * its own transcription of the loop that computes the equilibrium vector (repeated squaring until the
+   rows agree; before the repair: row 0 of `P^256` by `MatrixTools::pow`, not converged for slowly mixing
+   matrices).
 
 The model follows the repaired code (findings/C13.json): `getPij()` and
 `getEquilibriumFrequencies()` have one up-to-date flag each; `setTransitionProbabilities` notifies and
@@ -87,15 +86,38 @@ def FullTM.getPij (m : FullTM α) : FullTM α × List (List α) :=
   if m.upToDate then (m, m.pij)
   else let p := fullMatrix m.rows; ({ m with pij := p, upToDate := true }, p)
 
-def rowStore (p : List (List α)) : Mx.Store α := .row (p.map List.toArray).toArray
+/-! ### the equilibrium vector (FullHmmTransitionMatrix.cpp:78-140, as repaired): the matrix is squared until all
+its rows agree to 1e-14 (at most 64 times), the rows being renormalised after each squaring; the answer is row 0 -/
 
-/-- `MatrixTools::pow(pij_, 256, tmpmat_); eqFreq_[i] = tmpmat_(0, i)` (:83-88); `tmpmat_` is
-overwritten completely and read nowhere else: it is not part of the state.  `none` = an entry
-`tmpmat_(0, i)` does not exist (never: the power of an `n × n` matrix is `n × n`, `Mx.pow_spec`) -/
+/-- column `j` (every row has an entry `j`: the matrices here are square) -/
+def colOf (m : List (List α)) (j : Nat) : List α := m.filterMap (·[j]?)
+
+/-- `spread = 0; for i, j: d = |cur[i][j] - cur[0][j]|; if (d > spread) spread = d` -/
+def spreadOf (m : List (List α)) : α :=
+  match m with
+  | [] => zero
+  | r0 :: _ => m.foldl (fun s r => (List.zip r r0).foldl (fun s (x : α × α) => let d := abs (x.1 - x.2); if gtb d s then d else s) s) zero
+
+/-- `nxt[i][j] = Σ_k cur[i][k] * cur[k][j]` (accumulated from 0 in the order of `k`) -/
+def sqRows (n : Nat) (m : List (List α)) : List (List α) :=
+  m.map (fun r => (List.range n).map (fun j => sumL (List.zipWith (fun a b => a * b) r (colOf m j))))
+
+/-- `sum = Σ_j nxt[i][j]; cur[i][j] = nxt[i][j] / sum` -/
+def normRows (m : List (List α)) : List (List α) := m.map (fun r => let s := sumL r; r.map (fun x => x / s))
+
+/-- the convergence tolerance `1e-14` -/
+def eqTol : α := ofRat 1 100000000000000
+
+/-- `for (iter = 0; iter < fuel; ++iter) { if (spread <= 1e-14) break; square; renormalise; }` -/
+def eqLoop (n : Nat) : Nat → List (List α) → List (List α)
+  | 0, m => m
+  | fuel + 1, m => if leb (spreadOf m) eqTol then m else eqLoop n fuel (normRows (sqRows n m))
+
+/-- `eqFreq_[i] = cur[0][i]`; always defined (the `Option` is kept for the callers: `none` never occurs) -/
 def fullEqOf (n : Nat) (p : List (List α)) : Option (List α) :=
-  match Mx.pow (rowStore p) 256 (rowStore p) with
-  | .ok O => (List.range n).mapM (fun i => match O.get 0 i with | .ok x => some x | .error _ => none)
-  | .error _ => none
+  match eqLoop n 64 p with
+  | [] => some []
+  | r :: _ => some r
 
 /-- `getEquilibriumFrequencies()` (:78-92) -/
 def FullTM.getEq (m : FullTM α) : FullTM α × Option (List α) :=
